@@ -53,18 +53,42 @@ func sm2pkeLibEncrypt(st Step, msg []byte) ([]byte, sm2pkeOpt, error) {
 	return ct, o, err
 }
 
+// Option objects are the caller's and long-lived: ONE object per kind for the life of the process, used for every call of
+// every trace and on every key (a server keeps its options in a variable). A call may not leave anything behind in them.
+var sm2pkeDecOptObjs = map[string]crypto.DecrypterOpts{}
+
 func sm2pkeDecOpts(opt string) crypto.DecrypterOpts {
+	if o, ok := sm2pkeDecOptObjs[opt]; ok {
+		return o
+	}
+	var o crypto.DecrypterOpts
 	switch opt {
 	case "nil":
 		return nil
 	case "C1C3C2":
-		return sm2.NewPlainDecrypterOpts(sm2.C1C3C2)
+		o = sm2.NewPlainDecrypterOpts(sm2.C1C3C2)
 	case "C1C2C3":
-		return sm2.NewPlainDecrypterOpts(sm2.C1C2C3)
+		o = sm2.NewPlainDecrypterOpts(sm2.C1C2C3)
 	case "asn1":
-		return sm2.ASN1DecrypterOpts
+		o = sm2.ASN1DecrypterOpts
+	default:
+		panic("harness: sm2pke: unknown decrypter option " + opt)
 	}
-	panic("harness: sm2pke: unknown decrypter option " + opt)
+	sm2pkeDecOptObjs[opt] = o
+	return o
+}
+
+// sm2pkeForeign offers the option object a ciphertext of the OTHER encoding first (the result does not matter): whatever the
+// library concludes about that input concerns that call only.
+func sm2pkeForeign(priv *sm2.PrivateKey, opts crypto.DecrypterOpts, opt string) {
+	if opts == nil {
+		return
+	}
+	probe := append([]byte{0x30, 0x45, 0x02, 0x20}, make([]byte, 96)...)
+	if opt == "asn1" {
+		probe = append([]byte{0x04}, make([]byte, 120)...)
+	}
+	_, _ = priv.Decrypt(rand.Reader, probe, opts)
 }
 
 func sm2pkeEncOpts(form, order string) *sm2.EncrypterOpts {
@@ -123,7 +147,9 @@ func sm2pkeDecrypt(st Step, ct []byte) ([]byte, error) {
 		}
 		return sm2.Decrypt(priv, ct)
 	case "method":
-		return priv.Decrypt(rand.Reader, ct, sm2pkeDecOpts(st.Str("opt")))
+		opts := sm2pkeDecOpts(st.Str("opt"))
+		sm2pkeForeign(priv, opts, st.Str("opt"))
+		return priv.Decrypt(rand.Reader, ct, opts)
 	}
 	panic("harness: sm2pke: unknown entry point " + st.Str("via"))
 }
